@@ -313,6 +313,9 @@ int32_t jls_wr_user_data(struct jls_wr_s * self, uint16_t chunk_meta,
             break;
         case JLS_STORAGE_TYPE_STRING:  // intentional fall-through
         case JLS_STORAGE_TYPE_JSON:
+            if (NULL == data) {
+                return JLS_ERROR_PARAMETER_INVALID;
+            }
             data_size = (uint32_t) strlen((const char *) data) + 1;
             break;
         default:
@@ -392,6 +395,9 @@ int32_t jls_wr_annotation(struct jls_wr_s * self, uint16_t signal_id, int64_t ti
     ROE(jls_buf_wr_u8(buf, group_id));
     ROE(jls_buf_wr_u8(buf, 0));    // reserved
     ROE(jls_buf_wr_f32(buf, y));
+    if ((NULL == data) && ((JLS_STORAGE_TYPE_BINARY != storage_type) || (0 != data_size))) {
+        return JLS_ERROR_PARAMETER_INVALID;
+    }
     switch (storage_type) {
         case JLS_STORAGE_TYPE_BINARY:
             ROE(jls_buf_wr_u32(buf, data_size));
